@@ -5,7 +5,7 @@ import os
 from .model import AnalysisError
 from .report import VERIF
 from .callgraph import closure
-from .rules import r24_views, r1_resolve, r2_none, r3_ctor, r9_purity, r4_predicates, r5_arghandler, r6_dispatch, r7_binary, r8_accessors, r_list, r10_args, r11_symbolic, r16_tables, r15_closed, r14_interp, r18_shared, r19_angles, r20_shapes, r21_explog, r22_dualquat, r23_lines
+from .rules import r24_views, r25_log2, r1_resolve, r2_none, r3_ctor, r9_purity, r4_predicates, r5_arghandler, r6_dispatch, r7_binary, r8_accessors, r_list, r10_args, r11_symbolic, r16_tables, r15_closed, r14_interp, r18_shared, r19_angles, r20_shapes, r21_explog, r22_dualquat, r23_lines
 
 _anch = None
 
@@ -609,14 +609,12 @@ def c03(run):
     r21_explog.check_ginv(run)
     r21_explog.check_exp_dependence(run)
     r16_tables.check_trlog_dependence(run)
+    r25_log2.check_log2(run)                # planar logarithm in closed form (no general matrix logarithm: complex at a half turn)
     r16_tables.tables_frames(run)
     r20_shapes.check_shapes(run, run.prog.analysed_functions())
     r16_tables.check_routes(run, [
         ('super_pose:SMPose.log', '2D logarithm of every element with the twist option', ['[trlog2(x, twist=twist) for x in self.data]'], 'any'),
         ('super_pose:SMPose.log', '3D logarithm of every element with the twist option', ['[trlog(x, twist=twist) for x in self.data]'], 'any'),
-        ('base/transforms2d:trlog2', 'SE(2) logarithm as twist', ['vexa(logm(T))'], 'any'),
-        ('base/transforms2d:trlog2', 'SO(2) logarithm as twist', ['vex(logm(T))'], 'any'),
-        ('base/transforms2d:trlog2', 'matrix logarithm', ['logm(T)'], 'any'),
         ('twist:Twist3.SE3', 'pose of a twist', ['SE3(self.exp())'], 'return'),
         ('twist:Twist2.SE2', 'pose of a twist', ['SE2(self.exp())'], 'return'),
         ('pose3d:SE3.Twist3', 'twist of a pose', ['Twist3(self.log(twist=True))'], 'return'),
@@ -637,8 +635,10 @@ def c03(run):
                        'the recursion on R, w = vex(S); (e) the half-turn branch reads off-diagonal entries (R17); (f) the class methods route to '
                        'these functions with twist/check/units threaded and carry no hidden state. NOT decided: everything the property says '
                        'about accuracy -- branch thresholds, behaviour near the identity and near a half turn, 1e-7 agreement, log(exp(S)) = S as '
-                       'numbers, the 2D logarithm delegated to scipy.')
-    run.trust(*STATIC_TRUST, 'scipy.linalg.logm for the 2D logarithm')
+                       'numbers.  (g) the planar logarithm reads the angle as atan2(sin, cos) through the writer table of rot2 and the '
+                       'translational part as theta V^-1 t in closed form, divided by theta only under a test of theta; a general matrix logarithm '
+                       '(scipy logm) is not accepted: it is complex at a half turn (R25).')
+    run.trust(*STATIC_TRUST)
 
 
 CHECKS['C03'] = c03
